@@ -792,7 +792,7 @@ def check(case):
             res.skipped = "not-applicable:" + kind + (":" + str(e) if str(e) else "")
             return res
         except Exception as e:
-            f = "+".join(sorted(ctx.get("features", ())))
+            f = "+".join(sorted(set(ctx.get("features", ())) - {"open-line-switch"}))   # switch states cannot make a function crash
             res.fail("crash/%s/%s" % (kind, exc_sig(e)) + ("/" + f if f else ""), error=repr(e)[:300], after_steps=n_steps)
             return res
         n_steps += 1
